@@ -172,7 +172,10 @@ def _histogram(a, *, bins=10, range=None, density=None, weights=None, normed=Non
     range = _sanitize_range(range, units=[getattr(a, "units", None)])
     if hasattr(bins, "units") and hasattr(a, "units"):
         # bin edges given as a quantity: express them in the data's units
-        bins = bins.to_value(a.units)
+        if bins.units == a.units:
+            bins = np.asarray(bins)
+        else:
+            bins = bins.to_value(a.units)
     if NUMPY_VERSION >= Version("1.24"):
         counts, bins = np.histogram._implementation(
             np.asarray(a),
